@@ -372,6 +372,9 @@ fn feed_fixed_block_size<T: Source, C: Fill>(
     ))
 }
 
+/// Upper limit of the number of worker threads actually started.
+const MAX_WORKERS: usize = 1024;
+
 /// Determines worker counts considering various cues.
 fn determine_worker_count(config: &config::Encoder) -> Result<usize, SourceError> {
     let default_parallelism = std::thread::available_parallelism()
@@ -382,9 +385,12 @@ fn determine_worker_count(config: &config::Encoder) -> Result<usize, SourceError
         .and_then(|s| s.parse::<usize>().ok())
         .filter(|n| *n > 0) // zero workers can never finish the job.
         .unwrap_or(default_parallelism);
+    // More workers than this only cost memory (each one owns frame buffers);
+    // an absurd request must not overflow the buffer count or exhaust threads.
     Ok(config
         .workers
-        .map_or(default_parallelism, NonZeroUsize::get))
+        .map_or(default_parallelism, NonZeroUsize::get)
+        .min(MAX_WORKERS))
 }
 
 /// Parallel version of `encode_with_fixed_block_size`.
